@@ -2,9 +2,9 @@ CONSTANTS
   Q = 5
   MaxSteps = 3
   Lams <- TwoLams
-  Bases <- ThreeBases
-  Export = TRUE
+  Bases <- OneBase
+  Export = FALSE
 INIT Init
 NEXT Next
-INVARIANTS TrapdoorOK AllOpen TrapdoorPathAgrees Binding SingleChange EquivExported HashBinding ExportOK
+INVARIANTS TrapdoorOK AllOpen TrapdoorPathAgrees Binding SingleChange EquivExported HashBinding ElGamalBinding ExportOK
 CHECK_DEADLOCK FALSE
